@@ -19,7 +19,7 @@ M = [
     ("m-c15-leak-reads-1", "emu_mps/mps.py", '"1" if x == 1 else "0"', '"1" if x >= 1 else "0"', ["C15"]),
     ("m-c15-sv-bitstring-reversed", "emu_sv/utils.py", 'return format(index, f"0{nqubits}b")', 'return format(index, f"0{nqubits}b")[::-1]', ["C15"]),
     ("m-c15-errors-skipped-single-rate", "emu_mps/mps.py", "if p_false_neg > 0 or p_false_pos > 0 and self.dim == 2:", "if p_false_neg > 0 and p_false_pos > 0 and self.dim == 2:", ["C15"]),
-    ("m-c15-last-batch-dropped", "emu_mps/mps.py", "batch_size = min(max_batch_size, num_shots - shots_done)", "batch_size = min(max_batch_size, max(1, num_shots - shots_done - (1 if num_shots % max_batch_size == 1 and num_shots > max_batch_size else 0)))", ["C15"]),
+    ("m-c15-last-batch-dropped", "emu_mps/mps.py", "        while shots_done < num_shots:", "        while shots_done < num_shots - (1 if num_shots % max_batch_size == 1 and num_shots > max_batch_size else 0):", ["C15"]),
     # ---- C18
     ("m-c18-finder-not-cleared", "emu_mps/mps_backend_impl.py", "            self.target_time = self.target_times[self._timestep_index + 1]\n            self.root_finder = None\n", "            self.target_time = self.target_times[self._timestep_index + 1]\n", ["C18"]),
     ("m-c18-wrong-target-after-jump", "emu_mps/mps_backend_impl.py", "            self.do_random_quantum_jump()\n            self.target_time = self.target_times[self._timestep_index + 1]", "            self.do_random_quantum_jump()\n            self.target_time = self.target_times[min(self._timestep_index + 2, len(self.target_times) - 1)]", ["C18"]),
@@ -27,7 +27,7 @@ M = [
     ("m-c18-complete-below-threshold", "emu_mps/mps_backend_impl.py", "            if self.norm_gap_before_jump < 0:\n                # Initiate quantum jump location finding", "            if self.norm_gap_before_jump < -0.05:\n                # Initiate quantum jump location finding", ["C18", "C17"]),
     # ---- C19
     ("m-c19-no-direction-check", "emu_base/math/brents_root_finding.py", "or (adx >= abs(3 * delta_ab / 4) or dx * delta_ab < 0)", "or (adx >= abs(3 * delta_ab / 4))", ["C19"]),
-    ("m-c19-swap-dropped", "emu_base/math/brents_root_finding.py", "        # b has to be the better guess\n        if abs(self.fa) < abs(self.fb):\n            self.a, self.b = self.b, self.a\n            self.fa, self.fb = self.fb, self.fa\n\n        self.current_guess = self.b", "        self.current_guess = self.b", ["C19"]),
+    ("m-c19-bracket-update-swapped", "emu_base/math/brents_root_finding.py", "        if _same_sign(self.fb, ordinate) or (", "        if _same_sign(self.fa, ordinate) or (", ["C19", "C18"]),
     # ---- C26
     ("m-c26-sweep-index-reset-on-load", "emu_mps/mps_backend_impl.py", "        self.config.monkeypatch_observables()\n", "        self.config.monkeypatch_observables()\n        self._sweep_index = 0\n", ["C26", "C27"]),
     ("m-c26-file-not-removed", "emu_mps/mps_backend.py", "        if impl.autosave_file.is_file():\n            os.remove(impl.autosave_file)", "        if impl.autosave_file.is_file() and impl.config.autosave_dt == float(\"inf\"):\n            os.remove(impl.autosave_file)", ["C26"]),
@@ -43,7 +43,10 @@ M = [
     ("m-c21-grid-drops-last-multiple", "emu_base/pulser_adapter.py", "        i * float(dt) / duration for i in range(n_steps + 1)", "        i * float(dt) / duration for i in range(n_steps + (0 if duration / dt > 50 else 1))", ["C21"]),
     ("m-c21-reps-off-by-one", "emu_base/pulser_adapter.py", "            for _ in range(samples.reps):", "            for _ in range(samples.reps if samples.reps < 3 else samples.reps - 1):", ["C21", "C34"]),
     # ---- C34
-    ("m-c34-shared-omega-mutated", "emu_sv/sv_backend_impl.py", "            self.omega[:, self.well_prepared_qubits_filter] = 0.0", "            self.omega[:, self.well_prepared_qubits_filter] *= 0.5", ["C34"]),
+    # (a first idea, `self.omega[:, dark] *= 0.5` instead of `= 0.0` in emu-sv, turned out to be an equivalent mutant:
+    #  Pulser already samples a zero drive for badly prepared atoms)
+    ("m-c34-mps-drops-last-when-many", "emu_mps/mps_backend.py", "        return Results.aggregate(results)", "        return Results.aggregate(results if len(results) < 10 else results[:-1])", ["C34"]),
+    ("m-c34-sv-shared-delta-drifts", "emu_sv/sv_backend_impl.py", "            self.delta[:, self.well_prepared_qubits_filter] = 0.0", "            self.delta[:, ~self.well_prepared_qubits_filter] += 1e-3", ["C34"]),
     # ---- C03
     ("m-c03-results-permuted-forward", "emu_mps/mps_backend_impl.py", "            inv_perm = optimat.inv_permutation(self.qubit_permutation)", "            inv_perm = self.qubit_permutation", ["C03"]),
     ("m-c03-initial-state-not-permuted", "emu_mps/mps_backend_impl.py", "                optimat.permute_string(bstr, self.qubit_permutation): amp", "                bstr: amp", ["C03"]),
